@@ -17,8 +17,9 @@ CONSTANTS
   MaxDirect = 1
   MaxUnwanted = 1
   ExcludeSource = FALSE
-  EarlyReturn = TRUE
-  FanoutUnfiltered = TRUE
-  Tolerated = {"to-fanout-member-that-left-topic", "mesh-missed-no-topic-entry"}
+  EarlyReturn = FALSE
+  FanoutUnfiltered = FALSE
+  BatchLocalSkipped = TRUE
+  Tolerated = {}
 INVARIANTS TypeOK P_C06_Never P_C06_Direct P_C06_Flood P_C06_Mesh P_C06_Fanout P_C06_FanoutStable P_C06_FloodPublish P_C06_Floodsub P_C06_Randomsub
 CHECK_DEADLOCK FALSE
